@@ -295,11 +295,34 @@ Qed.
 Lemma filter_all {A} (l : list A) : filter (fun _ => true) l = l.
 Proof. induction l as [|x l IH]; simpl; [reflexivity | rewrite IH; reflexivity]. Qed.
 
+(* under wf_world two listed products with the same name and version are the same product: the stub of a line
+   that did not resolve carries a version that is not declared *)
+Lemma listed_key_inj w top a b :
+  wf_world w -> reach_plus w top a -> reach_plus w top b -> ukey_of a = ukey_of b -> a = b.
+Proof.
+  intros Hwf Ra Rb E.
+  destruct a as [[na va] ra], b as [[nb vb] rb]. unfold ukey_of in E. cbn [nname nver fst snd] in E.
+  inversion E. subst nb vb.
+  destruct (relookup_listed w top _ Hwf Ra) as [[A1 E1] | [A1 E1]];
+  destruct (relookup_listed w top _ Hwf Rb) as [[A2 E2] | [A2 E2]];
+  cbn [nreal snd] in A1, A2; subst ra rb; try reflexivity;
+  unfold relookup in E1, E2; cbn [nname nver fst snd] in E1, E2; rewrite E1 in E2; discriminate.
+Qed.
+
+Lemma listing_keys_nodup fuel w top l :
+  length w < fuel -> wf_world w -> dependent_products fuel w top true = Ok l ->
+  NoDup (map (fun x => ukey_of (enode x)) l).
+Proof.
+  intros Hf Hwf D. destruct (listing_topological true node_cmp w top fuel l Hf D) as [HL HN].
+  rewrite <- (map_map enode ukey_of). apply nodup_map_inj_on; [exact HN|].
+  intros a b Ia Ib E. apply HL in Ia as [_ Ra]. apply HL in Ib as [_ Rb]. eapply listed_key_inj; eauto.
+Qed.
+
 Lemma cli_entries_exact f l :
-  NoDup (map (fun x => nname (enode x)) l) ->
+  NoDup (map (fun x => ukey_of (enode x)) l) ->
   cli_entries f l = filter (fun x => depth_ok f (edepth x)) l.
 Proof.
-  intros Hn. unfold cli_entries. apply first_of_name_id; [apply nodup_map_filter, Hn | intros x _ []].
+  intros Hn. unfold cli_entries, cli_entries_with. apply first_of_product_id; [apply nodup_map_filter, Hn | intros x _ []].
 Qed.
 
 Lemma cli_lines_inv fuel w top topological f L :
@@ -307,6 +330,6 @@ Lemma cli_lines_inv fuel w top topological f L :
   exists l, dependent_products fuel w top topological = Ok l /\
             L = (if depth_ok f 0 then [top] else []) ++ map enode (cli_entries f l).
 Proof.
-  unfold cli_lines. destruct (dependent_products fuel w top topological) as [l|]; [|discriminate].
+  unfold cli_lines, cli_lines_with. destruct (dependent_products fuel w top topological) as [l|]; [|discriminate].
   cbn [andb]. intros Q. inversion Q. exists l. auto.
 Qed.
